@@ -382,6 +382,9 @@ def classify_update(facts, old_ps, new_ps):
         return "theta-inner-comment-edit"
     if facts["trailing_comma"]:
         return "theta-trailing-comma-edit"
+    if facts["up"] is not None and facts["up"].upper() in ("INF", "1000000") and new_ps[0][2] == INF \
+            and old_ps[0][1] > -INF and new_ps[0][1] == -INF:
+        return "theta-explicit-inf-upper-kept"
     if facts["rpar_adjacent"] and new_ps[0][1] > -1e6 and new_ps[0][2] == INF:
         return "theta-low-init-rpar-adjacent"
     return None
@@ -560,7 +563,11 @@ def _monitor_update(case, rec, facts, old, new, upd, drv, k, mon, tags):
                 tags.append("item-unchanged")
                 # the property speaks of the spelling of values: compare the number tokens (an added FIX keyword for an
                 # auto-fixed (v,v,v) item or re-arranged parentheses are not a respelling; recorded in the distribution)
-                if (g["init"], g["low"], g["up"]) != (f["init"], f["low"], f["up"]):
+                gl = f["low"] if (g["low"] is None and o[0][1] == -INF) else g["low"]
+                gu = f["up"] if (g["up"] is None and o[0][2] == INF) else g["up"]
+                if (gl, gu) != (g["low"], g["up"]):
+                    tags.append("explicit-infinite-bound-dropped")
+                if (g["init"], gl, gu) != (f["init"], f["low"], f["up"]):
                     cls = "theta-unchanged-bound-respelled" if g["init"] == f["init"] else "theta-frame"
                     if f["inner_comment"] and not g["inner_comment"]:
                         cls = "theta-inner-comment-edit"
@@ -571,9 +578,9 @@ def _monitor_update(case, rec, facts, old, new, upd, drv, k, mon, tags):
                 tags.append("item-changed")
                 if o[0][0] == nw[0][0] and g["init"] != f["init"]:
                     mon.append({"cls": "theta-unchanged-init-respelled", "what": f"{f['text']!r} -> {g['text']!r}: init unchanged"})
-                if o[0][1] == nw[0][1] and f["low"] is not None and g["low"] != f["low"]:
+                if o[0][1] == nw[0][1] and f["low"] is not None and g["low"] != f["low"] and not (g["low"] is None and o[0][1] == -INF):
                     mon.append({"cls": "theta-unchanged-bound-respelled", "what": f"{f['text']!r} -> {g['text']!r}: lower bound {o[0][1]} unchanged"})
-                if o[0][2] == nw[0][2] and f["up"] is not None and g["up"] != f["up"]:
+                if o[0][2] == nw[0][2] and f["up"] is not None and g["up"] != f["up"] and not (g["up"] is None and o[0][2] == INF):
                     mon.append({"cls": "theta-unchanged-bound-respelled", "what": f"{f['text']!r} -> {g['text']!r}: upper bound {o[0][2]} unchanged"})
     return readback
 
